@@ -294,7 +294,7 @@ func evalVarsAll(d varsCase) (lines []varsLine) {
 	if err := e.Setup(); err != nil {
 		return []varsLine{{"vars.resolve setup-error", "setup-error " + hx(err.Error())}}
 	}
-	rootBase := filepath.Base(dir)
+	rootBase := dir // absolute: directory strings are cache keys, the oracle prints their last component
 	var baseTok []string
 	for _, kv := range d.OsEnv {
 		baseTok = append(baseTok, fmt.Sprintf("%d %s", vID(kv[0]), hx(kv[1])))
@@ -346,7 +346,15 @@ func evalVarsAll(d varsCase) (lines []varsLine) {
 		// abstract layers as loaded
 		blocks := make([]string, 6)
 		allOK := true
-		for i, vs := range []*ast.Vars{e.Compiler.TaskfileEnv, e.Compiler.TaskfileVars, orig.IncludeVars, orig.IncludedTaskfileVars, toAstVars(call.Vars), orig.Vars} {
+		// The "variables of the included Taskfile" layer is what the generator put into the included
+		// file's own vars: (documented order: they rank above the include statement's vars and the
+		// globals) — not read back from the merged task, so that a merge that hands the task some other
+		// variable set is noticed.
+		inclTF := orig.IncludedTaskfileVars
+		if vt.Sub {
+			inclTF = toAstVars(d.SubVars)
+		}
+		for i, vs := range []*ast.Vars{e.Compiler.TaskfileEnv, e.Compiler.TaskfileVars, orig.IncludeVars, inclTF, toAstVars(call.Vars), orig.Vars} {
 			var bok bool
 			blocks[i], bok = absVars(vs)
 			allOK = allOK && bok
